@@ -112,6 +112,19 @@ func leanStr(s string) string {
 	return "\"" + s + "\""
 }
 
+func leanBytes(s string) string {
+	var b strings.Builder
+	b.WriteString("[")
+	for i := 0; i < len(s); i++ {
+		if i > 0 {
+			b.WriteString(", ")
+		}
+		fmt.Fprintf(&b, "%d", s[i])
+	}
+	b.WriteString("]")
+	return b.String()
+}
+
 func primTy(t reflect.Type) (string, bool) {
 	switch t {
 	case tInt32:
@@ -267,7 +280,7 @@ func probeDispatch(ti *typeInfo, f *fieldInfo) (sel int, entries []string, deps 
 					continue
 				}
 				if err == nil {
-					record(fmt.Sprintf("(.str %s)", leanStr(s)), res)
+					record(fmt.Sprintf("(.str %s /- %s -/)", leanBytes(s), strings.ReplaceAll(s, "-/", "- /")), res)
 				}
 			}
 		default:
